@@ -90,9 +90,10 @@ def nstep (ns : NS) : List String → NS × String
     match id.toNat?, k with
     | some i, "stall" => ({ ns with kinds := (i, 3) :: ns.kinds.filter (·.1 != i) }, nstatus ns)
     | some i, _ =>
-      if k == "gated" || k == "free" || k == "tcp" then
+      if k == "gated" || k == "free" || k == "tcp" || k == "pipe" then
+        -- `pipe` (ServeHTTP on an unbuffered connection read by a slow monitor) is a held writer like `gated`
         let ns1 := { ns with ids := insertSorted i ns.ids,
-                             kinds := (i, if k == "gated" then 1 else 2) :: ns.kinds.filter (·.1 != i),
+                             kinds := (i, if k == "gated" || k == "pipe" then 1 else 2) :: ns.kinds.filter (·.1 != i),
                              blocked := ns.blocked.filter (· != i) }
         let ns' := ns1.put { st := step chanCap ns.st (.sub i), blocked := ns1.blocked }
         (ns', nstatus ns')
@@ -385,6 +386,27 @@ def judgeDeliv (N : Nat) (qlens : List Nat) (pubs handed : List String) : String
       s!"viol lost={pubs.length - handed.length} full-at-publish={full}"
     else "viol order-or-content"
 
+/-- first position at which two lists differ (or the shorter one ends) -/
+def firstDiff : List String → List String → Nat
+  | a :: r, b :: t => if a == b then firstDiff r t + 1 else 0
+  | _, _ => 0
+
+/-- c20_slow_subscriber_prefix / c20_delivery, on the bytes a (slow) monitor read off its connection: the events
+it has decoded so far are, one for one and in order, the first ones of the published sequence minus exactly those
+published while its channel held `N` events; once nothing is left in the channel or in the handler's hands
+(`complete`), they are all of them.  `pubs` are the Publish* calls themselves (`ssh:<hex>`, `auth:<hex>:<hex>`, …):
+what the monitor must see is `mkEvent` of each, every byte of it. -/
+def judgeWire (N : Nat) (qlens : List Nat) (pubs : List PubCall) (complete : Bool) (handed : List String) : String :=
+  if qlens.length != pubs.length then "bad-op"
+  else
+    let expected := ((pubs.zip qlens).filter fun p => p.2 < N).map fun p => canon (mkEvent p.1)
+    if handed == expected then "ok"
+    else if handed.isPrefixOf expected then
+      (if complete then s!"viol lost={expected.length - handed.length} of {expected.length}" else "ok")
+    else if handed.length > expected.length && expected.isPrefixOf handed then
+      s!"viol unpublished-events={handed.length - expected.length}"
+    else s!"viol content at={firstDiff handed expected}"
+
 /-- c20_saveload -/
 def judgeSaveLoad (now : Int) (before after : DL) : String :=
   if after.fn != before.fn.filter (keep now) then
@@ -430,6 +452,11 @@ def judge : List String → String
     match n.toNat?, (splitList "," qlens).mapM String.toNat? with
     | some n, some ql => judgeDeliv n ql (splitList "|" pubs) (splitList "|" handed)
     | _, _ => "bad-op"
+  | ["wire", n, qlens, pubs, complete, handed] =>
+    match n.toNat?, (splitList "," qlens).mapM String.toNat?,
+          (splitList "|" pubs).mapM (fun t => parsePub (t.splitOn ":")), parseBool complete with
+    | some n, some ql, some pcs, some c => judgeWire n ql pcs c (splitList "|" handed)
+    | _, _, _, _ => "bad-op"
   | ["saveload", now, b, a] =>
     match now.toInt?, parseDL b, parseDL a with
     | some now, some b, some a => judgeSaveLoad now b a
